@@ -53,7 +53,7 @@ int __wrap_snprintf(char *b, size_t n, const char *f, ...) { va_list ap; va_star
 /* ledger API used by shared harness code: not applicable in this build */
 void sim_alloc_reset(void) {} void sim_alloc_begin_op(int o) { (void)o; } void sim_alloc_fail_at(long k, int s) { (void)k; (void)s; } void sim_alloc_fail_at2(long k) { (void)k; }
 long sim_alloc_op_count(void) { return 0; } int sim_alloc_fault_fired(void) { return 0; } uintptr_t sim_alloc_fault_site(void) { return 0; }
-void sim_alloc_always_move(int on) { (void)on; } void sim_alloc_set_budget(long l) { (void)l; } long sim_alloc_budget_refusals(void) { return 0; }
+void sim_alloc_always_move(int on) { (void)on; } void sim_alloc_fill(int on, unsigned char b) { (void)on; (void)b; } void sim_alloc_set_budget(long l) { (void)l; } long sim_alloc_budget_refusals(void) { return 0; }
 size_t sim_alloc_budget_worst_request(void) { return 0; } size_t sim_alloc_live_count(void) { return 0; } size_t sim_alloc_live_bytes(void) { return 0; }
 size_t sim_alloc_peak_bytes(void) { return 0; } void sim_alloc_reset_peak(void) {} long sim_alloc_bad_free_count(void) { return 0; } long sim_alloc_total_moves(void) { return 0; }
 void *sim_alloc_tracked(size_t n) { return __real_calloc(1, n ? n : 1); } int sim_alloc_is_live(const void *p) { (void)p; return 0; } size_t sim_alloc_size_of(const void *p) { (void)p; return 0; }
